@@ -56,6 +56,14 @@ only call them "optional" in the sense of "gated by graph.enabled"; core.emit_tr
 unguarded, the declared guard is inside emit_trace); T1, T2 core retrieval, meta-filter, canonical log appends, the
 snapshot BODY write.
 
+Fault SHAPES beyond "the call raises": mode "lookup" (LOOKUP_OK sites = collaborator OBJECTS the state / a module legitimately
+carries: state['_cache_mgr'], state['memory_index'], reflect._EMBED_ADAPTER): obtaining the method from the collaborator fails --
+with AttributeError this is exactly "the object lacks the attribute" (hasattr() is False), with the other types "attribute access
+raises" (property / __getattr__) -- so a guard that only wraps the CALL (bound method hoisted out of the try) is exposed.
+Baseline as for "before" (the operation never happened).  Not generated: collaborator None / foreign object for _cache_mgr (None
+means "absent", run_turn builds one; an object without get/set breaks the undeclared T2 cache lookup), store.apply_deltas lookup
+(getattr(store, 'apply_deltas', None) sits outside every guard: only AttributeError is tolerated, by design, and selects the
+documented "no-apply-fn" path), malformed t4.cache.namespaces (rejected by validate_config).
 Fault modes: "before" = the spy raises instead of calling the callable (all sites); "after" = the callable does its work and
 then raises, i.e. its result/report is lost (AFTER_OK sites only; baseline = the same run without fault).
 Baselines are built PER TURN: a subsystem is switched off in the baseline only in the turns in which its fault really fired
@@ -310,6 +318,8 @@ ARMS_EXCLUDED = {"cachekey.t2_request_key": ("last",), "reflect.embed_encode": (
 def arm_for(names, arm):
     return "all" if any(arm in ARMS_EXCLUDED.get(n, ()) for n in names) else arm
 # sites also faulted in mode "after" (the callable completes its work, then raises): the baseline is the same run without fault
+# sites whose callable is a METHOD OF A COLLABORATOR OBJECT: also faulted in mode "lookup" (see module docstring)
+LOOKUP_OK = ["cache.invalidate_namespace", "reflwrite.index_add", "reflect.embed_encode"]
 AFTER_OK = ["boot.load_latest_snapshot", "reflwrite.write_reflection_entries", "reflwrite.index_add", "refllog.log_t3_reflection",
             "refllog.append_jsonl", "cache.invalidate_namespace", "sidecar._write_sidecar_meta", "sidecar.atomic_write_text"]
 # which snapshot-dir contents let a boot site be reached
@@ -545,6 +555,40 @@ def _mk_raiser(env: _Env, site: dict, exc_name: str, orig, mode="before"):
     return spy
 
 
+class _LookupDescriptor:
+    """Class-level stand-in for a method: reading it from an INSTANCE raises while armed (AttributeError == attribute missing)."""
+
+    def __init__(self, env, site, exc_name, orig):
+        self._env, self._site, self._exc, self._orig = env, site, exc_name, orig
+
+    def __get__(self, inst, owner=None):
+        if inst is None:
+            return self._orig
+        if not self._env.armed(self._site):
+            return self._orig.__get__(inst, owner)
+        n = self._site["name"]
+        self._env.hits[n] = self._env.hits.get(n, 0) + 1
+        self._env.mark(n)
+        raise make_exc(self._exc, n)
+
+
+class _LookupProxy:
+    """Stand-in for a collaborator object: everything is served by the real object, only reading `attr` raises while armed."""
+    kind = "inmemory"
+
+    def __init__(self, env, site, exc_name, real, attr):
+        self.__dict__.update(_env=env, _site=site, _exc=exc_name, _real=real, _attr=attr)
+
+    def __getattr__(self, name):
+        d = self.__dict__
+        if name == d["_attr"] and d["_env"].armed(d["_site"]):
+            n = d["_site"]["name"]
+            d["_env"].hits[n] = d["_env"].hits.get(n, 0) + 1
+            d["_env"].mark(n)
+            raise make_exc(d["_exc"], n)
+        return getattr(d["_real"], name)
+
+
 def _mod(modname):
     import importlib
 
@@ -639,7 +683,18 @@ def install_faults(env: _Env, eng, faults):
     store_mode = None
     for site, exc_name, mode in faults:
         p = site["patch"]
-        if p[0] == "mod":
+        if mode == "lookup":
+            if p[0] == "cls":
+                cls = getattr(_mod(p[1]), p[2])
+                _patch_attr(env, cls, p[3], _LookupDescriptor(env, site, exc_name, vars(cls)[p[3]]))
+            elif p[0] == "objattr":
+                m = _mod(p[1])
+                _patch_attr(env, m, p[2], _LookupProxy(env, site, exc_name, getattr(m, p[2]), p[3]))
+            elif p[1] == "memory_index_add":
+                eng.state["memory_index"] = _LookupProxy(env, site, exc_name, eng.state["mem_index"], "add")
+            else:
+                raise RuntimeError(f"no lookup shape for {p!r}")
+        elif p[0] == "mod":
             m = _mod(p[1])
             orig = getattr(m, p[2])
             _patch_attr(env, m, p[2], _mk_raiser(env, site, exc_name, orig, mode))
@@ -932,7 +987,7 @@ def effective_cfgs(w, faults, raised_by_turn=None):
         if key not in memo:
             off = on
             for s, _, mode in faults:
-                if mode == "before" and s["name"] in fired:  # 'after' faults: baseline is the same run without fault
+                if mode != "after" and s["name"] in fired:  # 'after' faults: baseline is the same run without fault
                     off = world.deep_merge(off, s["off"])
             memo[key] = off
         offs.append(memo[key])
@@ -953,7 +1008,7 @@ def check_faults(case, rec=None, labels_extra=()):
     w = case["world"]
     faults = [(SITES[f[0]], f[1], (f[2] if len(f) > 2 else "before")) for f in case["faults"]]
     sites = [s for s, _, _ in faults]
-    before = [s for s, _, m in faults if m == "before"]
+    before = [s for s, _, m in faults if m != "after"]
     names = [s["name"] for s in sites]
     on, _ = effective_cfgs(w, faults)
     booting = bool(w.get("boot"))
@@ -1052,7 +1107,7 @@ def check_faults(case, rec=None, labels_extra=()):
             labels.append(("reached:" if f["raised"].get(nme) else "unreached:") + nme)
         labels += [f"turns={n}", f"enc={w['enc']}"] + (["mask_t2q"] if mask else []) + (["mask_cache_invalidations"] if mask_inv else []) + \
             (["mask_applied"] if mask_applied else [])
-        labels += ["mode:after" for _, _, m in faults if m == "after"]
+        labels += ["mode:" + m for _, _, m in faults if m != "before"]
         labels.append("arm:" + (arm if isinstance(arm, str) else ("all" if arm is None else "list")))
         if w.get("sparse"):
             labels.append("sparse_world")
@@ -1240,6 +1295,7 @@ def sub_sites(rec, seed, shard, nshards, worlds=4, extras=2):
             site = SITES[name]
             is_boot = "boot" in site["needs"]
             variants = [(e, "before") for e in EXC_NAMES] + ([(e, "after") for e in EXC_NAMES] if name in AFTER_OK else [])
+            variants += [(e, "lookup") for e in EXC_NAMES] if name in LOOKUP_OK else []
             variants += [(EXC_EXTRA[(si * extras + wi * 7 + j) % len(EXC_EXTRA)], "before") for j in range(extras)]
             for k, (exc_name, mode) in enumerate(variants):
                 idx += 1
@@ -1253,7 +1309,7 @@ def sub_sites(rec, seed, shard, nshards, worlds=4, extras=2):
                     arm = "all"  # the boot hook runs once per state; boot spies are armed throughout
                 else:
                     w = plain[carry]
-                case = {"world": w, "faults": [[name, exc_name] + ([mode] if mode == "after" else [])]}
+                case = {"world": w, "faults": [[name, exc_name] + ([mode] if mode != "before" else [])]}
                 arm = arm_for([name], arm)
                 if arm != "all" and len(w["turns"]) >= 2:
                     case["arm"] = arm
@@ -1354,8 +1410,8 @@ def combo_cases(draw):
     k = draw(st.sampled_from([2, 2, 3]))
     names = draw(st.lists(st.sampled_from(SITE_NAMES), min_size=k, max_size=k, unique=True).filter(compatible))
     excs = [draw(st.sampled_from(EXC_NAMES + EXC_NAMES + EXC_EXTRA)) for _ in names]
-    modes = [draw(st.sampled_from(["before", "before", "after"])) if (nm in AFTER_OK and SITES[nm]["group"] != "boot") else "before"
-             for nm in names]
+    modes = [draw(st.sampled_from(["before", "before"] + (["after"] if (nm in AFTER_OK and SITES[nm]["group"] != "boot") else []) +
+                                  (["lookup"] if nm in LOOKUP_OK else []))) for nm in names]
     wseed = draw(st.integers(0, 10 ** 6))
     boot = any("boot" in SITES[n]["needs"] for n in names)
     w = gen_world(random.Random(wseed), boot=boot, carry=draw(st.sampled_from([None, True])))
@@ -1368,7 +1424,7 @@ def combo_cases(draw):
         w["turns"] = w["turns"][:1]
     if draw(st.sampled_from([False, False, False, False, False, False, True])):
         w = sparsify(w)
-    case = {"world": w, "faults": [[n, e] + ([m] if m == "after" else []) for n, e, m in zip(names, excs, modes)]}
+    case = {"world": w, "faults": [[n, e] + ([m] if m != "before" else []) for n, e, m in zip(names, excs, modes)]}
     arm = arm_for(names, draw(st.sampled_from(["all", "all", "first", "last"])))
     if arm != "all" and len(w["turns"]) >= 2:
         case["arm"] = arm
